@@ -191,18 +191,23 @@ def rule_e(repo, chk):
 
 def _under_cond(call, func, pred):
     """Is *call* in the branch of an IfExp / if-statement whose condition states pred?"""
+    def holds(test, pol):
+        # `not t` true ⇔ t false
+        while isinstance(test, ast.UnaryOp) and isinstance(test.op, ast.Not):
+            test, pol = test.operand, ('F' if pol == 'T' else 'T')
+        return pred(test, pol)
     cur = call
     p = getattr(cur, '_parent', None)
     while p is not None and p is not func.node:
         if isinstance(p, ast.IfExp):
-            if cur is p.body and pred(p.test, 'T'):
+            if cur is p.body and holds(p.test, 'T'):
                 return True
-            if cur is p.orelse and pred(p.test, 'F'):
+            if cur is p.orelse and holds(p.test, 'F'):
                 return True
         if isinstance(p, ast.If):
-            if cur in p.body and pred(p.test, 'T'):
+            if cur in p.body and holds(p.test, 'T'):
                 return True
-            if cur in p.orelse and pred(p.test, 'F'):
+            if cur in p.orelse and holds(p.test, 'F'):
                 return True
         cur = p
         p = getattr(p, '_parent', None)
